@@ -1,19 +1,24 @@
 (* Dec: decimal printing of naturals (strconv.Itoa / %d for n >= 0). *)
-From Coq Require Import List NArith Bool Lia.
+From Coq Require Import List NArith Bool Lia Decimal.
 Import ListNotations.
 From Snaps Require Import Base.Bytes.
 
-Definition digit (d : N) : N := (48 + d)%N.
-
-(* fuel-driven most-significant-first printer on N *)
-Fixpoint dec_aux (fuel : nat) (n : N) (acc : bytes) : bytes :=
-  match fuel with
-  | O => acc
-  | S f => let acc' := digit (n mod 10) :: acc in
-           if N.ltb n 10 then acc' else dec_aux f (n / 10) acc'
+Fixpoint uint_bytes (u : Decimal.uint) : bytes :=
+  match u with
+  | Nil => []
+  | D0 r => 48%N :: uint_bytes r
+  | D1 r => 49%N :: uint_bytes r
+  | D2 r => 50%N :: uint_bytes r
+  | D3 r => 51%N :: uint_bytes r
+  | D4 r => 52%N :: uint_bytes r
+  | D5 r => 53%N :: uint_bytes r
+  | D6 r => 54%N :: uint_bytes r
+  | D7 r => 55%N :: uint_bytes r
+  | D8 r => 56%N :: uint_bytes r
+  | D9 r => 57%N :: uint_bytes r
   end.
 
-Definition decN (n : N) : bytes := dec_aux (S (N.to_nat (N.log2 n))) n [].
-Definition dec (n : nat) : bytes := decN (N.of_nat n).
+(* most significant digit first, "0" for zero *)
+Definition dec (n : nat) : bytes := uint_bytes (Nat.to_uint n).
 
 Definition is_digit (c : N) : bool := N.leb 48 c && N.leb c 57.
